@@ -167,6 +167,34 @@ def rule_result_no_alias(db: ProgramDB) -> List[Instance]:
                         f"`{unparse(n)}` aliases the caller's lookup dict", line=n.lineno))
     if n_sites == 0:
         raise AnalysisError("IndexedCache.retrieve: no per-branch extension of the binding found")
+    # what is handed out per stored entry is a dict of its own: the accumulator is shared by all entries reached through levels
+    # whose key the lookup binds, and a consumer extends a row before it pulls the next one.
+
+    def is_fresh(v: ast.AST) -> bool:
+        return (isinstance(v, ast.Call) and (dotted(v.func) in ("copy", "dict", "copy.copy", "copy.deepcopy", "deepcopy") or call_attr(v) == "copy")) \
+            or isinstance(v, (ast.Dict, ast.DictComp))
+    n_y = 0
+    for loop in [n for n in own_nodes(m.node) if isinstance(n, ast.For)]:
+        for y in [x for x in ast.walk(loop) if isinstance(x, ast.Yield) and isinstance(x.value, ast.Tuple) and x.value.elts]:
+            e = y.value.elts[0]
+            if isinstance(e, ast.Dict) and not e.keys:
+                continue                        # the flat store: an empty binding per value
+            n_y += 1
+            if is_fresh(e):
+                ok, why = True, f"`{unparse(e)}` is a new dict per entry"
+            elif isinstance(e, ast.Name):
+                defs = [d for d in ast.walk(loop) if isinstance(d, ast.Assign) and any(isinstance(t, ast.Name) and t.id == e.id for t in d.targets)]
+                stale = [d for d in defs if not is_fresh(d.value)]
+                ok = bool(defs) and not stale
+                why = (f"`{e.id}` is a new dict on every path of the loop body" if ok else
+                       f"`{e.id}` is the accumulator itself on the path through `{unparse(stale[0]) if stale else 'no assignment in the loop'}`: every entry "
+                       f"reached through levels whose key the lookup binds is handed out with the same dict, and a consumer that extends one row "
+                       f"changes the others")
+            else:
+                ok, why = False, f"`{unparse(e)}` is not a new dict"
+            out.append(inst("RESULT-NO-ALIAS", HOLDS if ok else VIOLATION, m, "IndexedCache.retrieve[binding handed out per entry]", why, line=y.lineno))
+    if n_y == 0:
+        raise AnalysisError("IndexedCache.retrieve: no entry handed out inside the loop over the children found")
     return out
 
 
@@ -629,6 +657,12 @@ def rule_retrieve_all_branches(db: ProgramDB) -> List[Instance]:
                         "when nothing is stored under the looked-up value, the entry that leaves the key open is followed" if miss_ok else
                         "when nothing is stored under the looked-up value, the list of children to follow stays without the wildcard child: a row stored under a binding "
                         "that leaves this key open is reported as covered and then not returned - rows are lost with caching on", line=where))
+        extra = sorted({t for k in res for t in res[k] if t not in ("concrete", "wild")})
+        out.append(inst("RETRIEVE-ALL-BRANCHES", VIOLATION if extra else HOLDS, m, "IndexedCache.retrieve[bound key: nothing but the entries that agree]",
+                        f"when the lookup binds a key, the children followed can be {extra} "
+                        f"(situations: {sorted(k for k in res if set(res[k]) - {'concrete', 'wild'})} = (entry under the looked-up value, entry that leaves the key open)): "
+                        f"entries that bind the key to ANOTHER value are returned, and their value overwrites the lookup's" if extra else
+                        "when the lookup binds a key, only the child of the looked-up value and the child that leaves the key open are followed", line=where))
         out.append(inst("RETRIEVE-ALL-BRANCHES", HOLDS if both_ok and conc_ok else VIOLATION, m, "IndexedCache.retrieve[bound key: wildcard only if concrete missing]",
                         "a bound key follows the child of the looked-up value and the wildcard child, whichever exist" if both_ok and conc_ok else
                         f"when the lookup binds a key and both an entry for the looked-up value and an entry that leaves the key open exist, the children followed are "
@@ -695,44 +729,63 @@ def rule_retrieve_bound_branches(db: ProgramDB) -> List[Instance]:
 
 def _branches_collected(db: ProgramDB, m: FuncInfo, ap: str, unbound: bool = False):
     """If retrieve() collects the children to follow for a BOUND key (or, unbound=True, for a key the lookup leaves open) in a local list:
-    {(concrete?, wildcard?): set of tags in the list}, line.  Tags: 'concrete', 'wild', 'all' (every child of the level)."""
+    {(concrete?, wildcard?): set of tags in the list}, line.  Tags: 'concrete', 'wild', 'all' (every child of the level).
+
+    The statements of the function are run in order up to the loop over the list, for the situation asked about: the list may be started
+    before the branch on whether the lookup binds the key, and filled or replaced after it."""
     from ..boolexpr import eval_bool
     bound_ifs = [x for x in own_nodes(m.node) if isinstance(x, ast.If) and isinstance(x.test, ast.Compare) and len(x.test.ops) == 1
-                 and isinstance(x.test.ops[0], ast.In) and unparse(x.test.comparators[0]) == ap]
+                 and isinstance(x.test.ops[0], (ast.In, ast.NotIn)) and unparse(x.test.comparators[0]) == ap]
     if len(bound_ifs) != 1:
         return None
-    arm = bound_ifs[0].body
-    lists = [a.targets[0].id for a in arm if isinstance(a, ast.Assign) and len(a.targets) == 1 and isinstance(a.targets[0], ast.Name)
-             and isinstance(a.value, ast.List) and not a.value.elts]
-    if len(lists) != 1:
+    loops = [f for f in own_nodes(m.node) if isinstance(f, ast.For) and isinstance(f.iter, ast.Name)]
+    lists = {a.targets[0].id for a in own_nodes(m.node) if isinstance(a, ast.Assign) and len(a.targets) == 1 and isinstance(a.targets[0], ast.Name)
+             and isinstance(a.value, ast.List)}
+    loops = [f for f in loops if f.iter.id in lists]
+    if len(loops) != 1:
         return None
-    L = lists[0]
-    if unbound:
-        arm = bound_ifs[0].orelse
-    if not any(isinstance(f, ast.For) and unparse(f.iter) == L for f in own_nodes(m.node)):
-        return None
+    L = loops[0].iter.id
+    the_loop = loops[0]
+
+    def touches(stmts) -> bool:
+        for st in stmts:
+            for x in ast.walk(st):
+                if isinstance(x, ast.Name) and x.id == L:
+                    return True
+        return False
+
+    class _Reached(Exception):
+        pass
     res = {}
     for C in (False, True):
         for W in (False, True):
             held: Set[str] = set()
 
             def atom(e):
-                if isinstance(e, ast.Compare) and len(e.ops) == 1 and isinstance(e.ops[0], (ast.In, ast.NotIn)) and "cache" in unparse(e.comparators[0]):
-                    l = unparse(e.left)
-                    a = "W" if l in ("All", "ALL") else ("C" if l.startswith(ap + "[") else None)
-                    if a:
-                        return ("!" if isinstance(e.ops[0], ast.NotIn) else "") + a
+                if isinstance(e, ast.Compare) and len(e.ops) == 1 and isinstance(e.ops[0], (ast.In, ast.NotIn)):
+                    neg = "!" if isinstance(e.ops[0], ast.NotIn) else ""
+                    if unparse(e.comparators[0]) == ap:
+                        return neg + "K"
+                    if "cache" in unparse(e.comparators[0]):
+                        l = unparse(e.left)
+                        a = "W" if l in ("All", "ALL") else ("C" if l.startswith(ap + "[") else None)
+                        if a:
+                            return neg + a
                 if isinstance(e, ast.Name) and e.id == L:
                     return "L"
                 return None
 
             def run(stmts):
                 for st in stmts:
+                    if st is the_loop:
+                        raise _Reached()
                     if isinstance(st, ast.If):
                         try:
-                            t = bool(eval_bool(st.test, atom, {"C": C, "W": W, "L": bool(held)}))
+                            t = bool(eval_bool(st.test, atom, {"K": not unbound, "C": C, "W": W, "L": bool(held)}))
                         except AnalysisError:
-                            raise
+                            if touches(st.body) or touches(st.orelse) or any(x is the_loop for x in ast.walk(st)):
+                                raise
+                            continue
                         run(st.body if t else st.orelse)
                     elif isinstance(st, ast.Expr) and isinstance(st.value, ast.Call) and call_attr(st.value) in ("append", "add") and unparse(st.value.func.value) == L:
                         src = unparse(st.value.args[0]) if st.value.args else ""
@@ -751,8 +804,15 @@ def _branches_collected(db: ProgramDB, m: FuncInfo, ap: str, unbound: bool = Fal
                         elif any(isinstance(c_, ast.Call) and call_attr(c_) in ("items", "values", "keys") and "cache" in unparse(c_.func.value) for c_ in ast.walk(st.value)):
                             excl = any(isinstance(c_, ast.Compare) and any(unparse(o) in ("All", "ALL") for o in [c_.left] + c_.comparators) for c_ in ast.walk(st.value))
                             held.add("all-but-wild" if excl else "all")
+                        else:
+                            held.add("?" + unparse(st.value)[:20])
+                    elif isinstance(st, (ast.AugAssign, ast.For, ast.While, ast.With, ast.Try)) and touches([st]):
+                        raise AnalysisError("the list of children to follow is built by a statement kind that is not modelled")
             try:
-                run(arm)
+                run(m.node.body)
+                return None                   # the loop was not reached in straight-line order
+            except _Reached:
+                pass
             except AnalysisError:
                 return None
             res[(C, W)] = set(held)
